@@ -34,7 +34,10 @@ def pre(shard, *v):
 
 def body(shard, *v):
     h = shard["h"]
-    vals = [pick(x, 0, 2) for x in v[:h + 1]]
+    if shard.get("join"):
+        vals = list(range(h + 1))           # joins never look at the values
+    else:
+        vals = [pick(x, 0, 2) for x in v[:h + 1]]
     i = h + 1
     srcs = None
     if shard.get("join"):
